@@ -3,6 +3,7 @@ package query
 import (
 	"bytes"
 	"fmt"
+	"math/big"
 	"strings"
 	"sync"
 	"time"
@@ -197,13 +198,15 @@ func serializeFloat(buf *bytes.Buffer, s string) {
 	buf.WriteString(s)
 }
 
+// serializeDatetime writes the nanoseconds elapsed since the Unix epoch. The number is built
+// from the seconds and the nanosecond part because time.Time.UnixNano is only defined for
+// the years 1678 to 2262.
 func serializeDatetime(buf *bytes.Buffer, t time.Time) {
-	serializeDatetimeFromUnixNano(buf, t.UnixNano())
-}
+	nanos := new(big.Int).Mul(big.NewInt(t.Unix()), big.NewInt(1e9))
+	nanos.Add(nanos, big.NewInt(int64(t.Nanosecond())))
 
-func serializeDatetimeFromUnixNano(buf *bytes.Buffer, t int64) {
 	buf.Write([]byte{91, 68, 93})
-	buf.WriteString(value.Int64ToStr(t))
+	buf.WriteString(nanos.String())
 }
 
 // comparisonKeyTextEscaper keeps free text from imitating the ":" that separates the
